@@ -144,7 +144,7 @@ typedef struct {
 	uint32_t id;
 	atomic_uint cb_count;
 } send_slot;
-#define C05_SLOTS (C05_MAX_SENDERS * C05_MAX_SENDS + 4096 + 2048)
+#define C05_SLOTS (C05_MAX_SENDERS * C05_MAX_SENDS + 4096 + 2048 + 256)
 static send_slot slots[C05_SLOTS];
 
 static const c05_scn *g5;
@@ -197,6 +197,31 @@ c05_stall_cb(tpt_p tpt, void *udata) {
 		usleep(100);
 		waited ++;
 	}
+}
+
+static uint32_t g5_race_base;
+static atomic_uint g5_race_sent;
+static void *
+c05_race_thread(void *arg) {
+	tpt_p dst = tp_thread_get(g5_tp, g5->race_dst % g5->nthreads);
+	uint32_t i, id;
+	int rc;
+
+	(void)arg;
+	for (i = 0; i < g5->race_n; i ++) {
+		id = g5_race_base + i;
+		tp_post_write_pause_us = (i & 1) ? 300 : 0;
+		/* the send that starts when the main thread is about to call tp_shutdown() is held between the library's look at
+		 * the destination state and its queue write (race_flags bit 3 selects this) */
+		tp_vp1_pause_us = (0 != (g5->race_flags & 8) && i == (uint32_t)(g5->race_n / 3)) ? 3000 : 0;
+		tp_log(R_SEND_CALL, id, 0, 0, 0);
+		rc = tpt_msg_send(dst, NULL, g5->race_flags & 7, c05_cb, &slots[id]);
+		tp_log(R_SEND_RET, id, (uint64_t)(int64_t)rc, 0, 0);
+		atomic_fetch_add(&g5_race_sent, 1);
+	}
+	tp_post_write_pause_us = 0;
+	tp_vp1_pause_us = 0;
+	return (NULL);
 }
 
 void
@@ -296,6 +321,22 @@ c05_run(const c05_scn *scn, c05_out *out) {
 				out->nsends += b;
 			}
 			atomic_store(&g5_stall_release, 1);
+		}
+	}
+	else if (0 != scn->race_n && 0 == out->hang && tpt_is_running(tp_thread_get(g5_tp, scn->race_dst % scn->nthreads))) {
+		pthread_t rt;
+		g5_race_base = out->nsends;
+		atomic_store(&g5_race_sent, 0);
+		if (0 == pthread_create(&rt, NULL, c05_race_thread, NULL)) {
+			int w = 0;
+			while (atomic_load(&g5_race_sent) < (uint32_t)(scn->race_n / 3) && w < CEIL_MS * 10) {
+				usleep(50);
+				w ++;
+			}
+			tp_shutdown(g5_tp);
+			pthread_join(rt, NULL);
+			out->nrace = scn->race_n;
+			out->nsends += scn->race_n;
 		}
 	}
 	pool_teardown(g5_tp, &out->res);
